@@ -3,7 +3,8 @@
    "unique arrangement" is established by exhaustive search on the multiset and each arrangement is confirmed by the
    verified matcher.  Refutations on the faithful model. *)
 From MX Require Import Spec.Particle Spec.Deriv Spec.Equiv Spec.Parikh Gen.Names Gen.Templates Gen.Schema Gen.Lib Model.Tables Model.PyM Model.PyObs
-  Model.AbsSeq Model.AbsSeqC02 Model.Classes Model.SeqMachine Model.SeqReject Model.SeqRemove Model.SeqPermute.
+  Model.AbsSeq Model.AbsSeqC02 Model.Classes Model.SeqMachine Model.SeqReject Model.SeqRemove Model.SeqPermute
+  Model.ChoiceSeq Model.ChoiceClass Model.ChoiceC02 Model.ChoicePermute Model.ChoiceReject Model.AbsBag Model.BagMore.
 From Coq Require Import Permutation.
 From Coq Require Import List Bool Arith.
 Import ListNotations.
@@ -38,6 +39,55 @@ Proof.
   exists t, s2. repeat split; auto; congruence.
 Qed.
 Print Assumptions C12a_partial_seq.
+
+(* (a) on the choice machine (arrow, bend, harmonic, instrument-change, measure-style, percussion, score-instrument, swing), against the
+   SCHEMA's content model: every word w of the schema language, in EVERY insertion order p: all children accepted, the final check
+   passes, serialised as w, insertion view p *)
+Theorem C12a_partial_choice : forall key x l t w p, In (key, Some x, Some l) cm_rows -> is_cseq l = true -> slots_of l = Some t -> forallb c02_ok t = true ->
+  Lang (re_of x) w -> Permutation w p ->
+  Forall (fun o => o = MOk) (couts (cminit t) (map MAdd p)) /\ cverdict_ok (cmrun t (map MAdd p)) = true /\
+  AbsSeq.names (cordered (ctree (cmrun t (map MAdd p)))) = w /\ map snd (cins (cmrun t (map MAdd p))) = p.
+Proof.
+  intros key x l t w p I Cs St G L P. destruct (is_cseq_nodup l t Cs St) as [W ND].
+  apply (proj1 (cm_row_sound key x l (forallb_In _ _ _ cm_rows_ok I))) in L. apply (slots_of_lang l t St) in L.
+  apply C12a_cmachine; auto.
+Qed.
+Print Assumptions C12a_partial_choice.
+(* (b) on the choice machine, against the SCHEMA's content model, for EVERY history without a removal (adds accepted or not,
+   same-name replacements, final checks): a child is rejected only if no word of the schema's content model contains the children
+   present together with it.  With a removal the statement is false: C12b_refuted_choice_after_removal. *)
+Theorem C12b_partial_choice : forall key x l t ops a, In (key, Some x, Some l) cm_rows -> is_cseq l = true -> slots_of l = Some t -> no_remove ops = true ->
+  snd (cstep (cmrun t ops) (MAdd a)) <> MOk -> ~ Alive (re_of x) (AbsSeq.names (cordered (ctree (cmrun t ops))) ++ [a]).
+Proof.
+  intros key x l t ops a I Cs St NR R (w & L & Dom). destruct (is_cseq_nodup l t Cs St) as [W ND].
+  apply (C12b_cmachine t ops a W ND NR R). exists w. split; auto.
+  apply (slots_of_lang l t St). apply (proj1 (cm_row_sound key x l (forallb_In _ _ _ cm_rows_ok I))). exact L.
+Qed.
+Print Assumptions C12b_partial_choice.
+(* non-vacuity: arrow is such a type; a rejected child in a removal-free history *)
+Example C12_choice_nonvacuous : is_cseq tpl_Arrow = true /\ match slots_of tpl_Arrow with Some t =>
+    forallb c02_ok t && negb (match snd (cstep (cmrun t [MAdd s_arrow_direction]) (MAdd s_circular_arrow)) with MOk => true | _ => false end) | None => false end = true.
+Proof. vm_compute. auto. Qed.
+(* after a removal the emptied sequence branch of arrow stays chosen: circular-arrow (a word on its own) is rejected - on the
+   specification machine and on the faithful model of the library alike (RC4) *)
+Example C12b_refuted_choice_after_removal :
+  match slots_of tpl_Arrow with Some t =>
+    match snd (cstep (cmrun t [MAdd s_arrow_direction; MRemove 0]) (MAdd s_circular_arrow)) with MOk => false | _ => true end
+    && Nat.eqb (List.length (cins (cmrun t [MAdd s_arrow_direction; MRemove 0]))) 0 | None => false end = true
+  /\ witness (re_of tpl_Arrow) [s_circular_arrow] [s_circular_arrow] = true
+  /\ (let ls := PyM.run tpl_Arrow [OAdd s_arrow_direction; ORemove 0; OAdd s_circular_arrow] in
+      match l_exn (last_line ls) with Some _ => true | None => false end = true /\ l_unordered (nth 1 ls dline) = []).
+Proof. vm_compute. auto. Qed.
+
+(* (b) on the bag machine (measure, dynamics, articulations, technical, ...), against the SCHEMA's content model: in every state a
+   rejected child occurs in no word of the content model.  ((a) is void for these types: every arrangement of a bag is valid.) *)
+Theorem C12b_partial_bag : forall key x l a mn s c, In (key, Some x, Some l) cm_rows -> bag_of 10 l = Some (a, mn) ->
+  snd (bstep a s (BAdd c)) <> BOk -> ~ Alive (re_of x) (bnames s ++ [c]).
+Proof.
+  intros key x l a mn s c I B R (w & L & Dom). apply (C12b_bag l a mn s c B R). exists w. split; auto.
+  apply (proj1 (cm_row_sound key x l (forallb_In _ _ _ cm_rows_ok I))). exact L.
+Qed.
+Print Assumptions C12b_partial_bag.
 
 (* RC4: after pitch was removed, cue (an exclusive alternative that is now compatible) is rejected *)
 Example C12_refuted_note :
